@@ -17,6 +17,7 @@ func search(command *bytecode.Command, filename string, reader *files.Reader, mo
 	case bytecode.ReplaceCommand:
 		return searchReplace(&com, filename, reader, mode)
 	case bytecode.SetCommand:
+		reader.Close()
 		return Matches{}
 	}
 	panic(fmt.Sprintf("Unknown command %T", ci))
@@ -82,7 +83,11 @@ func findMatches(insts []bytecode.SearchInstruction, all bool, skip int, take in
 }
 
 func searchFind(c *bytecode.FindCommand, filename string, reader *files.Reader, mode ReplaceMode) Matches {
-	return findMatches(c.Body, c.All, c.Skip, c.Take, c.Last, filename, reader)
+	foundMatches := findMatches(c.Body, c.All, c.Skip, c.Take, c.Last, filename, reader)
+	// the reader was opened for this command only; leaving it to the garbage collector
+	// runs a directory with many files out of file descriptors
+	reader.Close()
+	return foundMatches
 }
 
 func searchReplace(c *bytecode.ReplaceCommand, filename string, reader *files.Reader, mode ReplaceMode) Matches {
@@ -108,6 +113,7 @@ func searchReplace(c *bytecode.ReplaceCommand, filename string, reader *files.Re
 		// into memory since we will be writing over areas of text that
 		// we need to read from
 		replaceReader = files.ReaderFromFileToMemory(filename)
+		reader.Close()
 		writer = files.WriterFromFile(filename)
 	case NOTHING:
 		writer = files.WriterFromMemory()
